@@ -11,6 +11,8 @@ import (
 	"github.com/plgd-dev/go-coap/v3/message/pool"
 	"github.com/plgd-dev/go-coap/v3/net/responsewriter"
 	"github.com/plgd-dev/go-coap/v3/options"
+	tcpclient "github.com/plgd-dev/go-coap/v3/tcp/client"
+	tcpcoder "github.com/plgd-dev/go-coap/v3/tcp/coder"
 	udpclient "github.com/plgd-dev/go-coap/v3/udp/client"
 	udpserver "github.com/plgd-dev/go-coap/v3/udp/server"
 
@@ -18,6 +20,7 @@ import (
 	"verif/mcx"
 	"verif/vrt"
 	"verif/worlds/srvw"
+	"verif/worlds/tcpw"
 )
 
 // Server side: a real udp/server.Server whose per-peer connections get their monitor from the real
@@ -169,7 +172,116 @@ func serverScenario(depth int, keepAlive uint32) *mcx.Scenario {
 	}
 }
 
+// A tcp server with its DEFAULT configuration (no keep-alive option given): the built-in keep-alive
+// (maxRetries=2, timeout 16 s, i.e. one round every 16/3 s) guards every accepted connection.
+func tcpDefaultServerScenario(depth int) *mcx.Scenario {
+	const N = 2
+	PD := 16 * time.Second / 3
+	name := fmt.Sprintf("tcp-server default keep-alive (maxRetries=%d, period=%v), 1 peer, depth=%d", N, PD, depth)
+	return &mcx.Scenario{
+		Name:   name,
+		Bounds: mcx.Bounds{Preempt: 0, Env: -1, Select: 0, Delay: 1},
+		Opt:    vrt.Options{MaxSteps: 600000},
+		Body: func(s *vrt.Sched) func() (string, []mcx.Finding) {
+			var hist []string
+			var fs []mcx.Finding
+			fail := func(sig, format string, a ...any) {
+				fs = append(fs, mcx.Finding{Sig: sig, What: name + ": " + fmt.Sprintf(format, a...) + "; history [" + strings.Join(hist, " ") + "]"})
+			}
+			vrt.App("env", func() {
+				srv := srvw.NewTCP(srvw.StreamOpts{TCPHandler: func(w *responsewriter.ResponseWriter[*tcpclient.Conn], r *pool.Message) {
+					_ = w.SetResponse(codes.Content, message.TextPlain, nil)
+				}})
+				vrt.Quiesce("env: server up")
+				peer := srv.L.Connect("10.0.0.11:1000", nil)
+				vrt.Quiesce("env: accepted")
+				last, fails := vrt.Now(), 0
+				var lastPing *message.Message
+				parsed := 0
+				newPings := func() int {
+					n := 0
+					out := peer.St.Out
+					for parsed < len(out) {
+						var m message.Message
+						m.Options = make(message.Options, 0, 8)
+						used, err := tcpcoder.DefaultCoder.Decode(out[parsed:], &m)
+						if err != nil {
+							break
+						}
+						if m.Code == codes.Ping {
+							mm := m
+							mm.Token = append(message.Token{}, m.Token...)
+							lastPing = &mm
+							n++
+						}
+						parsed += used
+					}
+					return n
+				}
+				for step := 0; step < depth; step++ {
+					opts := []string{"recv", "tick(P/2)", "tick(P+e)", "pong"}
+					e := opts[vrt.Choose(len(opts), nil)]
+					hist = append(hist, e)
+					switch e {
+					case "recv":
+						peer.Send(tcpw.Encode(message.Message{Code: codes.GET, Token: message.Token{0x31, byte(step)}, Options: message.Options{{ID: message.URIPath, Value: []byte("x")}}}))
+						vrt.Quiesce("env: request handled")
+						last, fails = vrt.Now(), 0
+						newPings()
+					case "pong":
+						if lastPing == nil {
+							hist[len(hist)-1] = "pong(none)"
+							continue
+						}
+						peer.Send(tcpw.Encode(message.Message{Code: codes.Pong, Token: lastPing.Token}))
+						lastPing = nil
+						vrt.Quiesce("env: pong handled")
+						last, fails = vrt.Now(), 0
+					default:
+						d := PD / 2
+						if e == "tick(P+e)" {
+							d = PD + eps
+						}
+						vrt.Advance(d)
+						if srv.Tick == nil {
+							fail("server/no-housekeeping", "the server did not register its housekeeping function")
+							return
+						}
+						srv.Tick(vrt.Now())
+						vrt.Quiesce("env: tick handled")
+						closedNow := peer.St.Closed
+						fires := vrt.Now().After(last.Add(PD))
+						want := false
+						if fires {
+							fails++
+							want = fails > N
+						}
+						np := newPings()
+						switch {
+						case closedNow && !want:
+							fail("server/keepalive-closed-early", "connection closed after %d consecutive unanswered rounds (maxRetries=%d), last message %v ago", fails, N, vrt.Now().Sub(last))
+							return
+						case !closedNow && want:
+							fail("server/not-closed-when-due", "connection not closed after %d consecutive unanswered rounds", fails)
+							return
+						case fires && !want && np != 1:
+							fail("server/keepalive-ping-count", "%d pings written at an inactivity detection", np)
+						}
+						if closedNow {
+							return
+						}
+					}
+				}
+				srv.S.Stop()
+				vrt.Quiesce("env: stopped")
+			})
+			return func() (string, []mcx.Finding) { return "tcpsrv:" + strings.Join(hist, " "), fs }
+		},
+	}
+}
+
 func addServerLevel(r *ev.Run, scs *[]*mcx.Scenario) {
+	*scs = append(*scs, tcpDefaultServerScenario(ev.Pick(r, 6, 8)))
 	*scs = append(*scs, serverScenario(ev.Pick(r, 5, 6), 0))
 	*scs = append(*scs, serverScenario(ev.Pick(r, 5, 7), 2))
 }
